@@ -663,6 +663,14 @@ def div_q_ui (dir : Int) (quot dividend divisor : Nat) (s : St) : R (Nat × St) 
     let qn := nn - (if top = 0 then 1 else 0)
     pure (rl, s.setSize quot (if ns ≥ 0 then (qn : Int) else -(qn : Int)))    -- :74
 
+/-- mpz_divexact_ui (dst, src, divisor): dive_ui.c:32-60.  The pointer plumbing is that of mpz_tdiv_q_ui statement for
+    statement (`SIZ (src) == 0` exit :47-52, `MPZ_REALLOC (dst, abs_size)` :55, `dst_ptr = PTR (dst)` :56 then `PTR (src)`,
+    MPN_DIVREM_OR_DIVEXACT_1 with dst == src allowed :58, size from the top limb :59-60); no value is returned.  Inside the
+    documented domain (divisor ∣ src) mpn_divexact_1 and mpn_divrem_1 store the same quotient. -/
+def divexact_ui (dst src divisor : Nat) (s : St) : R St := do
+  let r ← div_q_ui 0 dst src divisor s
+  pure r.2
+
 /-- mpz_tdiv_r_ui / mpz_fdiv_r_ui (= mpz_mod_ui with a destination) / mpz_cdiv_r_ui (`dir` = 0 / -1 / 1): tdiv_r_ui.c:34-88,
     fdiv_r_ui.c:34-98, cdiv_r_ui.c.  `PTR (rem)[0] = rl` is stored without a realloc ("no function ever makes zero
     space", tdiv_r_ui.c:82-83): relies on ALLOC ≥ 1.  rem = dividend allowed: mpn_mod_1 has read the operand before. -/
